@@ -433,6 +433,120 @@ func init() {
 		},
 	})
 
+	// S5: the receiver lags by a full DEFAULT window (16 MiB pending unread), then drains after the sender closed.
+	vexp.Register(&vexp.Scenario{
+		Name: "c03.S5.receiver-lags-a-full-default-window", Prop: "C03",
+		Bounds: func(thorough bool) vexp.Bounds { return vexp.Bounds{P: 0, F: 0, E: 0} },
+		Configs: func(thorough bool) []map[string]int {
+			out := []map[string]int{{"dirn": 0, "msg": 1 << 20}, {"dirn": 1, "msg": 1 << 20}}
+			if thorough {
+				out = append(out, map[string]int{"dirn": 0, "msg": 65536}, map[string]int{"dirn": 0, "msg": 4000})
+			}
+			return out
+		},
+		MaxSteps: 4000000,
+		Doc:      "default options (window 16 MiB): the sender pushes messages until a full window is pending, alternating a large size (1 MiB; thorough also 64 KiB and 4000 bytes) with 8 bytes, and ends with SendAndClose(payload); the receiver starts reading only after the close arrived and must get every message in order before the end status (dirn 0: client to server, 1: server to client); one schedule (the data volume is the dimension here)",
+		Body: func(x *vexp.Ctx) {
+			msg := x.P("msg", 1<<20)
+			total := 16 << 20
+			x.Params["window"], x.Params["writeq"], x.Params["rbuf"], x.Params["wbuf"] = 16<<20, 16<<20, 32<<10, 32<<10 // the library defaults
+			var want [][2]int                                                                                           // (seq, len)
+			sendAll := func(ch Channel, ctx async.Context) string {
+				sent := 0
+				for seq := 0; sent+msg+8 <= total-msg; seq += 2 {
+					for k, n := range []int{msg, 8} {
+						p := make([]byte, n)
+						p[0], p[1], p[2], p[n-1] = byte(seq+k), byte((seq+k)>>8), byte((seq+k)>>16), 0x5a
+						if st := ch.Send(ctx, p); !st.OK() {
+							return "send: " + st.String()
+						}
+						want = append(want, [2]int{seq + k, n})
+						sent += n
+					}
+				}
+				last := []byte{0xff, 0xff, 0xff, 0x5a}
+				want = append(want, [2]int{0xffffff, len(last)})
+				if st := ch.SendAndClose(ctx, last); !st.OK() {
+					return "send-and-close: " + st.String()
+				}
+				return ""
+			}
+			var got [][2]int
+			drained := false
+			recvAll := func(ch Channel, ctx async.Context) {
+				for {
+					m, st := ch.Receive(ctx)
+					if !st.OK() {
+						drained = st.Code == status.CodeEnd
+						return
+					}
+					if len(m) < 4 {
+						got = append(got, [2]int{-1, len(m)})
+						continue
+					}
+					got = append(got, [2]int{int(m[0]) | int(m[1])<<8 | int(m[2])<<16, len(m)})
+				}
+			}
+			sendErr := ""
+			sDone, rDone := false, false
+			start := false
+			handler := HandleFunc(func(ctx Context, ch Channel) status.Status {
+				rctx := async.NoContext()
+				if x.P("dirn", 0) == 0 {
+					vsched.Join("sender finished", func() bool { return start })
+					recvAll(ch, rctx)
+					rDone = true
+				} else {
+					ch.Receive(rctx) // the opening message
+					sendErr = sendAll(ch, rctx)
+					sDone = true
+				}
+				return status.OK
+			})
+			w := newWide(x, handler)
+			ctx := async.NoContext()
+			ch, st := w.cli.Channel(ctx)
+			if !st.OK() {
+				x.Fail("Channel fails on a healthy connection", "%v", st)
+				return
+			}
+			if x.P("dirn", 0) == 0 {
+				vsched.GoNamed("sender", func() { sendErr = sendAll(ch, ctx); sDone = true })
+				vsched.Join("sender done", func() bool { return sDone })
+				vsched.WaitIdle("everything delivered to the receive queue")
+				start = true
+				vsched.Join("receiver done", func() bool { return rDone })
+			} else {
+				ch.Send(ctx, []byte("open"))
+				vsched.Join("sender done", func() bool { return sDone })
+				vsched.WaitIdle("everything delivered to the receive queue")
+				recvAll(ch, ctx)
+			}
+			if sendErr != "" {
+				x.Fail("Send fails on a healthy connection: "+errSig(sendErr), "%s", sendErr)
+			}
+			if !drained {
+				x.Fail("receiver did not observe the end status", "got %d of %d messages", len(got), len(want))
+			}
+			for i := range got {
+				if i >= len(want) || got[i] != want[i] {
+					w := [2]int{-1, -1}
+					if i < len(want) {
+						w = want[i]
+					}
+					x.Fail("received message differs from the sent one (corruption / reordering / leakage)", "message %d: got seq=%d len=%d want seq=%d len=%d", i, got[i][0], got[i][1], w[0], w[1])
+					break
+				}
+			}
+			if drained && len(got) != len(want) {
+				x.Fail("receiver drained to the end status but messages are missing", "received %d of %d messages", len(got), len(want))
+			}
+			ch.Free()
+			x.Outcome = fmt.Sprintf("delivered=%d/%d", len(got), len(want))
+			w.shutdown()
+		},
+	})
+
 	// S2: payload on the opening frame, on the closing frame, and SendAndClose on a never-opened channel (open+close batch).
 	vexp.Register(&vexp.Scenario{
 		Name: "c03.S2.open-close-payloads", Prop: "C03",
